@@ -157,8 +157,8 @@ impl Property for C12 {
 
     fn runs(&self, tier: Tier) -> u64 {
         match tier {
-            Tier::Quick => 15000,
-            Tier::Thorough => 1500000,
+            Tier::Quick => 60000,
+            Tier::Thorough => 3000000,
         }
     }
 
